@@ -952,3 +952,21 @@ Proof.
   destruct (p_set_insert _ _ _ _ _ _ Hs Hc He Ea) as [v [x [_ [_ [_ [_ [_ [Hlen _]]]]]]]].
   rewrite app_length in Hlen. simpl in Hlen. lia.
 Qed.
+
+(* the size limit on the SET path of object settings *)
+Theorem p_object_set_limit : forall sp o cur st tn c',
+  find_setting (sp_settings sp) (o_name o) = Some st -> s_type st = SObj tn -> o_code o = OSet ->
+  apply_cell sp o cur = Ok c' ->
+  exists x l, c' = Some x /\ v_value x = VList l /\ (length l <= g_max_set)%nat.
+Proof.
+  intros sp o cur st tn c' Hf Ht Hc Ha. unfold apply_cell in Ha. rewrite Hf, Hc in Ha.
+  unfold coerce_value in Ha. rewrite Ht in Ha.
+  destruct (find_type (sp_types sp) tn) as [ts|]; [|discriminate].
+  destruct (sized_elems (o_value o)) as [es|]; [|discriminate].
+  destruct (negb (s_set_of st) && Nat.ltb 1 (length es)); [discriminate|].
+  destruct (coerce_objs sp ts es ([], [])) as [r|e]; cbn [bind catch_vt] in Ha;
+    [|destruct e; discriminate].
+  destruct (too_large (fst r)) eqn:Etl; cbn [bind catch_vt] in Ha; [discriminate|].
+  injection Ha as Ha. subst c'. eexists. exists (fst r). repeat split.
+  unfold too_large in Etl. apply Nat.ltb_ge in Etl. exact Etl.
+Qed.
